@@ -110,6 +110,52 @@ Theorem C09_other_ids_do_not_interfere :
 Proof. exact other_ids_do_not_interfere. Qed.
 Print Assumptions C09_other_ids_do_not_interfere.
 
+(* (3b) keep-alive of the node address a waiting tunnel resolves to.  After RegisterNodeAddress(id, a) on node n0, along
+   EVERY history in which each RegisterNodeAddress on that key re-registers a before the remaining lifetime has run
+   out on the backend's clock (every registration restarts NodeAddressTTL) and nobody else sets the key - any other
+   operations by any nodes in between - GetNodeAddress(id) from every node reading the same cell returns a. *)
+Theorem C09_node_address_kept_alive :
+  forall gstr enc dec decm of_addr to_addr keep c s n0 id a h n2,
+  (forall x, to_addr (of_addr x) = x) -> c_addr_ttl c <> 0 -> a <> [] ->
+  let cl := cell_of c n0 (addr_key c id) in
+  cell_of c n2 (addr_key c id) = cl ->
+  kept_alive c cl a (c_addr_ttl c) h ->
+  snd (step gstr enc dec decm of_addr to_addr keep c
+            (final gstr enc dec decm of_addr to_addr keep c
+                   (fst (step gstr enc dec decm of_addr to_addr keep c s (ORegAddr n0 id a))) h)
+            (OGetAddr n2 id)) = RAddr a.
+Proof. exact addr_kept_alive. Qed.
+Print Assumptions C09_node_address_kept_alive.
+
+(* the server's refresh loop, for ANY uptime: k rounds of { the refresh interval passes; register the same address again }
+   (k unbounded) and then any wait within one lifetime: the address resolves.  The real interval (1 h, regenerated from
+   components_session.go) fits twice into the real NodeAddressTTL: Proofs/SideC09.v refresh_inside_address_ttl. *)
+Theorem C09_refreshed_address_resolves :
+  forall gstr enc dec decm of_addr to_addr keep c s n id a dn db k tail_n tail_b n2,
+  (forall x, to_addr (of_addr x) = x) -> c_addr_ttl c <> 0 -> a <> [] ->
+  let cl := cell_of c n (addr_key c id) in
+  cell_of c n2 (addr_key c id) = cl ->
+  cl_adv cl dn db <= c_addr_ttl c -> cl_adv cl tail_n tail_b <= c_addr_ttl c ->
+  snd (step gstr enc dec decm of_addr to_addr keep c
+            (final gstr enc dec decm of_addr to_addr keep c
+                   (fst (step gstr enc dec decm of_addr to_addr keep c s (ORegAddr n id a)))
+                   (periodic_refresh n id a dn db k ++ [OTick tail_n tail_b]))
+            (OGetAddr n2 id)) = RAddr a.
+Proof. exact refreshed_address_resolves. Qed.
+Print Assumptions C09_refreshed_address_resolves.
+
+(* the real numbers: hourly refresh, 24 h lifetime, clustered deployment - after 1000 refreshes (41 days) and 23 h 59 min
+   more the address registered by node 0 resolves on node 1; without the refreshes it is gone after 24 h *)
+Theorem C09_refresh_example :
+  let c := cfg_hybrid true 0 in
+  let id := [110;111;100;101;45;48] in let a := [49;48;46;48;46;48;46;49] in
+  let s1 := fst (ex_step c (init ex_gstr) (ORegAddr 0 id a)) in
+  snd (ex_step c (ex_final c s1 (periodic_refresh 0 id a AddrRefreshIntervalNs AddrRefreshIntervalNs 1000
+                                   ++ [OTick 86340000000000 86340000000000])) (OGetAddr 1 id)) = RAddr a
+  /\ snd (ex_step c (ex_final c s1 [OTick 86400000000001 86400000000001]) (OGetAddr 1 id)) = RAddrNotFound.
+Proof. exact ex_refresh. Qed.
+Print Assumptions C09_refresh_example.
+
 (* (4) refinement: from the empty store, for every history whose registered records satisfy the codec and in which
    the backend clock never runs ahead of the node clock (db <= dn in every tick: keys are not expired early), the
    answers are those of the specification map  tunnel id -> record with expiry  (Model/Routing.v spec_step) *)
